@@ -243,7 +243,7 @@ func transition(s score, n *node, pi int32, ei int, c *counters) node {
 	lo, hi, x := n.r.bounds(now)
 	c.comparisons++
 	if before < lo || before > hi {
-		add("int-deviates-from-decay-rule:"+zone(e.Dt), fmt.Sprintf("before the last increase, %d s after the previous event: int()=%d but persistent %d + transient %.6f admits [%d,%d]", e.Dt, before, n.r.P, x, lo, hi))
+		add("int-deviates-from-decay-rule."+zone(e.Dt), fmt.Sprintf("before the last increase, %d s after the previous event: int()=%d but persistent %d + transient %.6f admits [%d,%d]", e.Dt, before, n.r.P, x, lo, hi))
 	}
 	ret := uint64(s.VerifIncrease(e.P, e.Tr, unix))
 	after := uint64(s.VerifInt(unix))
@@ -251,7 +251,7 @@ func transition(s score, n *node, pi int32, ei int, c *counters) node {
 	lo, hi, x = r.bounds(now)
 	c.comparisons++
 	if after < lo || after > hi {
-		add("score-deviates-from-decay-rule:"+zone(e.Dt), fmt.Sprintf("after the last increase: int()=%d but persistent %d + transient %.6f admits [%d,%d]", after, r.P, x, lo, hi))
+		add("score-deviates-from-decay-rule."+zone(e.Dt), fmt.Sprintf("after the last increase: int()=%d but persistent %d + transient %.6f admits [%d,%d]", after, r.P, x, lo, hi))
 	}
 	if after < uint64(r.P) {
 		add("score-below-persistent-sum", fmt.Sprintf("int()=%d < persistent sum %d", after, r.P))
